@@ -8,7 +8,7 @@ ID = "C14"
 PROPS_FILE = "theories/Props/C14.v"
 EXTRACT = ("theories/Extract/XC14.v", "c14",
            ["entry_mec_ok", "entry_chrystal_many", "entry_sweep_many", "entry_feret_max", "entry_feret_min_ok", "entry_feret_lower_ok",
-            "entry_fill_model", "entry_fill_check", "entry_fill_hyp", "entry_chrystal_hyp_many", "entry_chrystal_vec"])
+            "entry_fill_model", "entry_fill_check", "entry_fill_hyp", "entry_chrystal_hyp_many", "entry_chrystal_vec", "entry_strict_convex_many"])
 PYX = {}
 RULE = ("ROUND 2 additions: 40 % of the cases as dtype/layout variants (label image int8..int64, uint8..uint64; C, Fortran, "
         "strided view, read-only; index list as list, tuple or array of any integer dtype; hull array int16/int32/int64 in "
@@ -623,6 +623,10 @@ def _model(ctx, cases, outs):
             if h:   # hypothesis of theorem C14_chrystal_reaches_certificate on this run's hull lists
                 ctx.count("chrystal_hypothesis_holds" if r == 1 else "chrystal_hypothesis_FAILS(hull not strict / first edge)")
     sw = ctx.run_model("entry_sweep_many", hulls)
+    for hy, hs in zip(ctx.run_model("entry_strict_convex_many", hulls), hulls):
+        for r, h in zip(hy, hs):
+            if len(h) >= 3:   # hypothesis of theorem C14_calipers_max_eq_bruteforce on this run's hulls
+                ctx.count("calipers_hypothesis_holds" if r == 1 else "calipers_hypothesis_FAILS(hull not strictly convex)")
     fl = ctx.run_model("entry_fill_model", [[[l, h] for (l, _, h) in objs[k] if h] if outs[k]["fill"] != "not-run" else []
                                             for k in ok])
     # brute force on the same vertex lists, next to the sweep: a disagreement refutes calipers = brute force
